@@ -1,10 +1,12 @@
 ---------------------------- MODULE LatticeExport ----------------------------
-(* S->I export for C05: every complete lattice behaviour (starts, draws with index / target / outcome, abandoned attempts) *)
+(* S->I export for C05: every complete lattice behaviour (starts, draws with index / target / outcome, abandoned attempts; *)
+(* for a history of systems built in one process: the behaviour over all builds, "build" events in between)               *)
 EXTENDS MC_Lattice, Json
 VARIABLE hist
 XInit == Init /\ hist = <<>>
 XNext == Next /\ hist' = Append(hist, last')
 XSpec == XInit /\ [][XNext]_<<vars, hist>>
-ExportInv == (pc = "done") => PrintT(<<"CASE", ToJson([L |-> L, chains |-> Chains, closed |-> SetToSeq(Closed), grid |-> SetToSeq(Grid), bundle |-> Bundle, maxiter |-> MaxIter, evs |-> hist,
-                                                        pos |-> pos])>>)
+HistoryJson == [b \in 1..NBuilds |-> [chains |-> History[b].chains, closed |-> SetToSeq(History[b].closed), stars |-> SetToSeq(History[b].stars)]]
+ExportInv == (pc = "done") => PrintT(<<"CASE", ToJson([L |-> L, history |-> HistoryJson, grid |-> SetToSeq(Grid), bundle |-> Bundle, maxiter |-> MaxIter,
+                                                        force |-> Force, evs |-> hist, pos |-> pos])>>)
 =============================================================================
